@@ -43,7 +43,7 @@ def new_opts(draw, typed, explicit_ids=True, fresh=False):
         o["kind"] = draw(KINDS)
     if fresh and draw(st.sampled_from([0, 0, 1])):
         o["fresh"] = True
-    if draw(st.sampled_from([0] * 9 + [1])):
+    if draw(st.sampled_from([0] * 6 + [1])):
         # (node_id is documented as str|int and stored as int: "5001" and 5001 are the same id)
         o["nid"] = draw(st.sampled_from([5000, 5001, 5002, 5003, "5001", "5002"])) if draw(st.booleans()) else draw(st.integers(5000, 5020))
     return o
@@ -146,6 +146,14 @@ def histories(draw, typed=False, max_ops=40, explicit_ids=True, fresh=False, kin
     if explicit_ids:
         gen.fix_sibling_ids(spec)
     spec2 = draw(gen.forest_specs(max_nodes=6, max_depth=3, max_width=3, alphabet=LABELS, opts=gen.node_opts(explicit_ids=False, kinds=typed)))
+    if spec and spec2 and draw(st.sampled_from([0, 0, 1])):
+        # two trees alive whose nodes carry the SAME explicit node_ids (an id is unique per tree only)
+        for k_, (a_, b_) in enumerate(zip(spec[:2], spec2[:2])):
+            for n_ in (a_, b_):
+                o_ = dict(n_[2]) if len(n_) > 2 and n_[2] else {}
+                o_["nid"] = 5000 + k_
+                del n_[2:]
+                n_.append(o_)
     ref = None
     n_nodes = gen.spec_nodes(spec)
     if n_nodes > 40:
